@@ -15,7 +15,7 @@ from facts import AnalysisBroken, access_path, strip_casts, unparse
 from flow import Facts, single_defs, describe_path
 from pairing import assigned_var, live_exit_paths, call_with_arg
 from ownership import owned_fields, released_keys, object_key, is_alloc_expr, RELEASERS
-from rules_common import where, incremented_paths
+from rules_common import where, incremented_paths, free_then_null
 
 DESTRUCTORS = {
     "OrcProgram": ("orc_program_free", "orcprogram"),
@@ -287,22 +287,6 @@ def run(ctx):
                     ("orc_parse_handle_init", "orcparse"), ("orc_program_set_name", "orcprogram"), ("orc_program_set_backup_name", "orcprogram")):
         f = db.func(fn, tub)
         rep.saw(f)
-        for c in f.calls():
-            if c.name not in ("free", "orc_code_free"):
-                continue
-            a = strip_casts(c.args()[0])
-            if a.k not in ("MemberExpr", "ArraySubscriptExpr"):
-                continue
-            rec, suf = object_key(a)
-            if rec not in ("OrcProgram", "OrcParser"):
-                continue
-            p = access_path(a)
-            n6 += 1
-            # some store to the same path follows on every path (NULL or a new value)
-            from flow import paths_avoiding
-            w = paths_avoiding(f, c, lambda e, pp=p: e.k == "BinaryOperator" and e.op == "=" and access_path(e.c[0]) == pp)
-            rep.check(w is None, "D6-FREE-THEN-NULL", where(f), p,
-                      "freed field is overwritten (NULL or new value) before the function returns",
-                      "%s frees %s and can return with the dangling pointer still in the field (double free in the destructor)" % (fn, p), line=c.line)
+        n6 += free_then_null(f, rep, "D6-FREE-THEN-NULL", ("OrcProgram", "OrcParser"))
     if n6 < 6:
         raise AnalysisBroken("only %d free-then-null instances found" % n6)
